@@ -1447,3 +1447,122 @@ Proof.
     - destruct (put_detached (detached s) x) as [[d' e0]|]; inversion P; reflexivity. }
   destruct res; inversion D; subst. exists x. split; [reflexivity|]. rewrite E. eapply find_req_mark_done. exact Fr.
 Qed.
+
+(* ============================================================================================ *)
+(* 10. membership against the abstract server set (C05)                                          *)
+(* ============================================================================================ *)
+
+(* the server set as a finite set (list up to membership) folded over the notifications *)
+Definition set_apply (m : list Z) (nt : notif) : list Z :=
+  match nt with NJoin ep => ep :: m | NLeave ep => remz ep m end.
+
+Record mspec := mkSpec { sp_ready : bool; sp_set : list Z; sp_pending : list notif }.
+
+Definition spec_step (m : mspec) (lb : label) : mspec :=
+  match lb with
+  | Init snap => if sp_ready m then m else mkSpec true (fold_left set_apply (sp_pending m) snap) []
+  | Join ep => if sp_ready m then mkSpec true (ep :: sp_set m) []
+               else mkSpec false (sp_set m) (sp_pending m ++ [NJoin ep])
+  | Leave ep => if sp_ready m then mkSpec true (remz ep (sp_set m)) []
+                else mkSpec false (sp_set m) (sp_pending m ++ [NLeave ep])
+  | _ => m
+  end.
+
+Fixpoint spec_run (m : mspec) (ls : list label) : mspec :=
+  match ls with [] => m | lb :: r => spec_run (spec_step m lb) r end.
+
+Definition spec0 : mspec := mkSpec false [] [].
+
+Lemma servers_add s ep s' ev : do_add_server s ep = (s', ev) ->
+  forall e, In e (servers s') <-> e = ep \/ In e (servers s).
+Proof.
+  unfold do_add_server. destruct (memz ep (servers s)) eqn:M; intros D; inversion D; subst; cbn [servers]; intros e.
+  - apply memz_in in M. split; [intros H; right; exact H|intros [->|H]; assumption].
+  - rewrite in_app_iff. cbn [In]. split; [intros [H|[<-|[]]]; [right|left]; auto|intros [->|H]; [right; left; reflexivity|left; exact H]].
+Qed.
+
+Lemma servers_remove s ep s' ev : do_remove_server s ep = (s', ev) ->
+  forall e, In e (servers s') <-> In e (servers s) /\ e <> ep.
+Proof.
+  unfold do_remove_server. destruct (pos_of_ep (heap s) ep); intros D; inversion D; subst; cbn [servers]; intros e; apply in_remz.
+Qed.
+
+Lemma servers_notif s nt s' ev m : do_notif s nt = (s', ev) ->
+  (forall e, In e (servers s) <-> In e m) -> forall e, In e (servers s') <-> In e (set_apply m nt).
+Proof.
+  intros D H e. destruct nt; cbn [do_notif set_apply] in *.
+  - rewrite (servers_add _ _ _ _ D e). cbn [In]. rewrite H. split; intros [A|A]; auto.
+  - rewrite (servers_remove _ _ _ _ D e). rewrite in_remz, H. reflexivity.
+Qed.
+
+Lemma servers_notifs : forall l s s' ev m, do_notifs s l = (s', ev) ->
+  (forall e, In e (servers s) <-> In e m) -> forall e, In e (servers s') <-> In e (fold_left set_apply l m).
+Proof.
+  induction l as [|nt r IH]; intros s s' ev m D H; cbn [do_notifs fold_left] in *.
+  - inversion D; subst. exact H.
+  - destruct (do_notif s nt) as [s1 ev1] eqn:D1. destruct (do_notifs s1 r) as [s2 ev2] eqn:D2.
+    inversion D; subst. eapply IH; [exact D2|]. eapply servers_notif; eassumption.
+Qed.
+
+Definition Sim (s : state) (m : mspec) : Prop :=
+  init_done s = sp_ready m /\ blocked s = sp_pending m /\
+  (sp_ready m = true -> sp_pending m = [] /\ forall e, In e (servers s) <-> In e (sp_set m)).
+
+Lemma fold_joins : forall (l acc : list Z) e,
+  In e (fold_left set_apply (map NJoin l) acc) <-> In e l \/ In e acc.
+Proof.
+  induction l as [|a l IHl]; intros acc e; cbn [map fold_left set_apply]; [cbn [In]; tauto|].
+  rewrite IHl. cbn [In]. tauto.
+Qed.
+
+Lemma sim_same s s' m : Sim s m -> init_done s' = init_done s -> blocked s' = blocked s -> servers s' = servers s -> Sim s' m.
+Proof. intros (S1 & S2 & S3) E1 E2 E3. unfold Sim. rewrite E1, E2, E3. split; [exact S1|]. split; [exact S2|exact S3]. Qed.
+
+Lemma sim_step s m lb : Sim s m -> Sim (fst (step s lb)) (spec_step m lb).
+Proof.
+  intros S. pose proof S as (S1 & S2 & S3). destruct lb as [snap|ep|ep| |rid j|x st]; cbn [step spec_step].
+  - unfold do_init. rewrite S1. destruct (sp_ready m) eqn:R; [cbn [fst]; exact S|].
+    destruct (do_notifs _ (map NJoin snap)) as [s1 ev1] eqn:D1.
+    destruct (do_notifs _ (blocked s1)) as [s2 ev2] eqn:D2. cbn [fst].
+    destruct (notifs_gate _ _ _ _ D1) as [A1 A2]. destruct (notifs_gate _ _ _ _ D2) as [B1 B2].
+    cbn [set_gate init_done blocked] in A1, A2, B1, B2.
+    unfold Sim. cbn [sp_ready sp_set sp_pending]. split; [exact B1|]. split; [exact B2|]. intros _. split; [reflexivity|].
+    assert (H0 : forall e, In e (servers s1) <-> In e (fold_left set_apply (map NJoin snap) [])).
+    { apply (servers_notifs _ _ _ _ _ D1). cbn [set_gate servers]. intros e'. reflexivity. }
+    rewrite <- S2, <- A2. apply (servers_notifs _ _ _ _ snap D2). cbn [set_gate servers]. intros e.
+    rewrite H0, fold_joins. cbn [In]. tauto.
+  - unfold do_notify. rewrite S1. destruct (sp_ready m) eqn:R.
+    + destruct (do_notif s (NJoin ep)) as [s1 ev] eqn:D. cbn [fst]. destruct (notif_gate _ _ _ _ D) as [A1 A2].
+      destruct (S3 eq_refl) as [P1 P2].
+      unfold Sim. cbn [sp_ready sp_set sp_pending]. split; [congruence|]. split; [congruence|]. intros _. split; [reflexivity|].
+      apply (servers_notif _ _ _ _ _ D P2).
+    + cbn [fst]. unfold Sim. cbn [set_gate init_done blocked servers sp_ready sp_pending sp_set].
+      split; [congruence|]. split; [congruence|discriminate].
+  - unfold do_notify. rewrite S1. destruct (sp_ready m) eqn:R.
+    + destruct (do_notif s (NLeave ep)) as [s1 ev] eqn:D. cbn [fst]. destruct (notif_gate _ _ _ _ D) as [A1 A2].
+      destruct (S3 eq_refl) as [P1 P2].
+      unfold Sim. cbn [sp_ready sp_set sp_pending]. split; [congruence|]. split; [congruence|]. intros _. split; [reflexivity|].
+      apply (servers_notif _ _ _ _ _ D P2).
+    + cbn [fst]. unfold Sim. cbn [set_gate init_done blocked servers sp_ready sp_pending sp_set].
+      split; [congruence|]. split; [congruence|discriminate].
+  - apply (sim_same s _ m S); unfold do_dispatch; destruct (negb (init_done s)); try reflexivity;
+      destruct (heap s); try reflexivity; destruct (get _ _ _ _) as [[[l1 dq1] ev]|]; reflexivity.
+  - assert (E : init_done (fst (do_complete s rid j)) = init_done s /\ blocked (fst (do_complete s rid j)) = blocked s /\ servers (fst (do_complete s rid j)) = servers s).
+    { unfold do_complete. destruct (find_req (reqs s) rid) as [[x [|]]|]; try (split; [|split]; reflexivity).
+      destruct (do_put _ x j) as [s1 [res ev]] eqn:P.
+      assert (E : init_done s1 = init_done s /\ blocked s1 = blocked s /\ servers s1 = servers s).
+      { unfold do_put in P. cbn [heap set_reqs detached] in P. destruct (pos_of_nid (heap s) x).
+        - destruct (clamp _) as [v e0]. destruct ((v =? Idle) && _); [destruct ((1 <=? j) && _)|]; inversion P; (split; [|split]; reflexivity).
+        - destruct (put_detached (detached s) x) as [[d' e0]|]; inversion P; (split; [|split]; reflexivity). }
+      destruct res; cbn [fst]; try exact E; (split; [|split]; reflexivity). }
+    destruct E as (E1 & E2 & E3). apply (sim_same s _ m S); assumption.
+  - apply (sim_same s _ m S); reflexivity.
+Qed.
+
+Lemma sim_run : forall ls s m, Sim s m -> Sim (run s ls) (spec_run m ls).
+Proof.
+  induction ls as [|lb r IH]; intros s m H; cbn [run spec_run]; [exact H|]. apply IH. apply sim_step. exact H.
+Qed.
+
+Lemma sim_init s0 : Sim (init_state s0) spec0.
+Proof. unfold Sim. cbn. split; [reflexivity|]. split; [reflexivity|discriminate]. Qed.
